@@ -106,7 +106,9 @@ def run_c03(tier):
             # correspondence with the model of the generated code
             chk.corr_compared += 1
             impl_outcome = 'fault' if o.get('fault') else 'exception' if o.get('exception') else 'accepted' if o.get('ok') else 'rejected'
-            if impl_outcome != m['outcome']:
+            if impl_outcome == 'fault' and 'misaligned address' in str(o.get('fault')) and tr.get(c.tid, {}).get('opt_misaligned'):
+                chk.bump('D4: misaligned native access (UBSan) - outcome not compared with the model')
+            elif impl_outcome != m['outcome']:
                 chk.correspondence_mismatch('Cpp.decode outcome = generated decode', casej, o, m)
             elif impl_outcome == 'accepted' and src == 'spec' and e != 'native':
                 want = {'size': o.get('size'), 'ptr_written': o.get('ptr_written'), 'vec': o.get(key) if not o.get('enc_skipped') else 'fault'}
@@ -292,8 +294,11 @@ def run_c07(tier):
             chk.bump('outcome:' + impl_outcome)
             if kind == 'corrupt':
                 chk.sample({'type': c.name, 'data': bs.hex(), 'endianness': e, 'outcome': impl_outcome}, limit=4)
+            d4_ub = impl_outcome == 'fault' and 'misaligned address' in str(o.get('fault')) and tr.get(c.tid, {}).get('opt_misaligned')
             if impl_outcome == 'fault':
-                chk.property_violation(casej, {'what': 'decode read outside the buffer / undefined behaviour', 'fault': o['fault']})
+                # D4 puts the fields after an optional<T> 4 bytes off their wire position: in native order the typed load / store is misaligned (UBSan)
+                chk.property_violation(casej, {'what': 'decode read outside the buffer / undefined behaviour', 'fault': o['fault']},
+                                       d4(tr) if d4_ub else None)
             elif impl_outcome == 'exception':
                 chk.property_violation(casej, {'what': 'decode threw %s instead of returning a boolean' % o['exception'], 'alloc_max': o.get('alloc_max')})
             else:
@@ -306,7 +311,9 @@ def run_c07(tier):
                     chk.property_violation(casej, {'what': 'accepted input of %d bytes re-encodes to %d bytes' % (len(bs), len(o.get('enc_native', '')) // 2), 'cpp': o},
                                            d4(tr) if (o.get('overrun') or o.get('ptr_written') != o.get('size')) else None)
             chk.corr_compared += 1
-            if impl_outcome != m['outcome']:
+            if d4_ub:
+                chk.bump('D4: misaligned native access (UBSan) - outcome not compared with the model')
+            elif impl_outcome != m['outcome']:
                 chk.correspondence_mismatch('Cpp.decode outcome = generated decode (malformed stream)', casej, impl_outcome, m)
         chk.extra['worst_alloc_bytes_per_input_byte'] = round(worst, 1)
     finally:
